@@ -29,6 +29,7 @@ class FolKB:
         self.L = L
         self.desc = desc
         self.obj, self.idof, self.order = {}, {}, []
+        self.desync = []
         self.vars = {}
         wmap = {"open": L.World.OPEN, "closed": L.World.CLOSED, "axiom": L.World.AXIOM}
         acts = {"luk": L.NeuralActivation.Lukasiewicz, "lukt": L.NeuralActivation.LukasiewiczTransparent}
@@ -153,11 +154,14 @@ class FolKB:
         quant = type(o).__name__ in ("Forall", "Exists")
         for g, row in o.grounding_table.items():
             key = tuple(self.const_no(c) for c in g)
-            if quant and len(o.neurons) > row:
-                d = o.neurons[row].get_data().detach().reshape(-1).tolist()
-            else:
-                d = o.neuron.bounds_table[row].detach().reshape(-1).tolist()
+            # what get_data()/state() return: the formula's own table. (For a quantifier with free variables the per-group
+            # neurons hold a second copy; `desync` lists the rows where the two differ.)
+            d = o.neuron.bounds_table[row].detach().reshape(-1).tolist()
             res[key] = (Fr(d[0]), Fr(d[1]))
+            if quant and len(o.neurons) > row:
+                d2 = o.neurons[row].get_data().detach().reshape(-1).tolist()
+                if (Fr(d2[0]), Fr(d2[1])) != res[key]:
+                    self.desync.append((i, key, res[key], (Fr(d2[0]), Fr(d2[1]))))
         return res
 
     def tab_line(self, ids=None):
@@ -167,9 +171,12 @@ class FolKB:
     def tab_out(self, ids=None):
         ids = ids or self.order
         parts = []
+        self.desync = []
         for i in ids:
             t = self.table(i)
             parts.append(f"{i}:" + ";".join(f"{gtxt(g)}={q(t[g][0])},{q(t[g][1])}" for g in sorted(t)))
+        # (self.desync is informational only: after a parent formula has written to the table and before the quantifier's
+        # next own pass the two copies legitimately differ; the table is what the public API shows)
         return "t " + " ".join(parts)
 
     def registered_ids(self):
@@ -203,6 +210,8 @@ def parse_tab(line):
     res = {}
     for tok in line.split()[1:]:
         i, rest = tok.split(":", 1)
+        if i == "DESYNC":
+            continue
         rows = {}
         if rest:
             for r in rest.split(";"):
@@ -249,10 +258,12 @@ def run_fol_program(prog):
         add_fact(i, tuple(g), lo, hi)
 
     def snap():
+        t = kb.tab_out()
+        c = "c %d" % (1 if kb.model.has_contradiction() else 0)
         lines.append(kb.tab_line())
-        out.append(kb.tab_out())
+        out.append(t)
         lines.append("fcontra " + ids(meta["registered"]))
-        out.append("c %d" % (1 if kb.model.has_contradiction() else 0))
+        out.append(c)
 
     snap()
     for op in prog["ops"]:
@@ -312,7 +323,13 @@ def run_fol_program(prog):
         except Exception as e:
             meta["errors"].append(f"{op}: {type(e).__name__}: {str(e)[:200]}")
             break
-        snap()
+        try:
+            snap()
+        except Exception as e:
+            # reading the tables through the public accessors failed after this call: a failure of the call, with the
+            # program as its failing input
+            meta["errors"].append(f"reading all tables after {op}: {type(e).__name__}: {str(e)[:200]}")
+            break
     return {"lines": lines, "impl": out, "meta": meta}
 
 
@@ -337,7 +354,7 @@ def rand_bounds(rng, classical_p=0.5, crossed_p=0.0):
 
 
 def gen_fol_kb(rng, n_preds=(2, 4), n_conn=(1, 3), max_arity=3, quant=False, worlds=True, weighted=True,
-               nots=True, composites=True):
+               nots=True, composites=True, parents=True):
     preds = []
     for i in range(rng.randint(*n_preds)):
         ar = rng.choice([1, 1, 2, 2, 3][: 3 + max_arity - 1]) if max_arity >= 3 else rng.randint(1, max_arity)
@@ -411,6 +428,10 @@ def gen_fol_kb(rng, n_preds=(2, 4), n_conn=(1, 3), max_arity=3, quant=False, wor
                     body = [r, None]
                     m = rng.randint(1, len(vs))
                     qv = rng.sample(vs, m) if rng.random() < 0.5 else list(vs)
+                    if parents is True and len(vs) >= 2:
+                        pass
+                    elif parents and parents is not True and parents >= 1 and len(vs) >= 2:
+                        qv = rng.sample(vs, rng.randint(1, len(vs) - 1))      # keep a free variable
                 n = {"id": nid, "kind": rng.choice(["forall", "exists"]), "ops": [body], "qvars": qv}
                 if rng.random() < 0.15:
                     n["fully_grounded"] = True
@@ -418,11 +439,34 @@ def gen_fol_kb(rng, n_preds=(2, 4), n_conn=(1, 3), max_arity=3, quant=False, wor
                     n["world"] = rng.choice(["axiom", "closed"])
                 nodes.append(n)
                 free_left = [] if k == "pred" else [v for v in vs if v not in qv]
-                if free_left and rng.random() < 0.5:
+                if free_left and rng.random() < (0.5 if parents is True or not parents else 0.15):
                     # quantify the remaining variables with the OTHER kind: Exists(x, Forall(y, ...)) etc.
                     nid += 1
+                    qv2 = free_left if rng.random() < 0.7 else free_left[:1]
                     nodes.append({"id": nid, "kind": "exists" if n["kind"] == "forall" else "forall",
-                                  "ops": [[nid - 1, None]], "qvars": free_left if rng.random() < 0.7 else free_left[:1]})
+                                  "ops": [[nid - 1, None]], "qvars": qv2})
+                    free_left = [v for v in free_left if v not in qv2]
+                if free_left and parents and rng.random() < (0.5 if parents is True else parents):
+                    # a formula with free variables used as a sub-formula: S(x) -> Forall(y, ...), Not(Exists(y, ...)), ...
+                    qid = nid
+                    nid += 1
+                    pk = rng.choice(["implies", "implies", "and", "or", "not"])
+                    if pk == "not":
+                        pn = {"id": nid, "kind": "not", "ops": [[qid, None]]}
+                        if worlds and rng.random() < 0.6:
+                            pn["world"] = rng.choice(["axiom", "axiom", "closed"])
+                    else:
+                        pp = rng.choice(preds)
+                        pool = list(free_left) + [v for v in VARS if v not in free_left]
+                        if rng.random() < 0.3:
+                            rng.shuffle(pool)
+                        pops = [[pp["id"], pool[:pp["arity"]]], [qid, None]]
+                        if rng.random() < 0.4:
+                            pops.reverse()
+                        pn = {"id": nid, "kind": pk, "ops": pops, "act": rng.choice(["lukt", "lukt", "luk"])}
+                        if worlds and rng.random() < 0.5:
+                            pn["world"] = rng.choice(["axiom", "axiom", "closed"])
+                    nodes.append(pn)
                 new_roots.append(nid)
                 nid += 1
             else:
@@ -436,20 +480,29 @@ def gen_facts(rng, desc, n_consts=(2, 4), density=0.6, classical_p=0.5, crossed_
     facts = []
     import itertools
     for p in desc["preds"]:
+        # some predicates start with an empty table (everything about them is derived), some with a sparse one
+        d = rng.choice([0.0, 0.25, density, density, density, density]) if len(desc["preds"]) > 1 else density
         for g in itertools.product(range(nc), repeat=p["arity"]):
-            if rng.random() < density:
+            if rng.random() < d:
                 lo, hi = rand_bounds(rng, classical_p, crossed_p)
                 facts.append((p["id"], list(g), lo, hi))
     return facts, nc
 
 
-def gen_fol_ops(rng, desc, n_ops=(2, 10)):
+def gen_fol_ops(rng, desc, n_ops=(2, 10), mid_facts=0.0, n_consts=4):
+    """mid_facts: share of ops that assert a further fact between inference calls (data arriving over time: tables and
+    quantifier groups then grow in an order that is not the sorted one)"""
     conn = [n["id"] for n in desc["nodes"]]
     ar = {n["id"]: len(n["ops"]) for n in desc["nodes"]}
     kinds = {n["id"]: n["kind"] for n in desc["nodes"]}
     ops = []
     for _ in range(rng.randint(*n_ops)):
         r = rng.random()
+        if mid_facts and rng.random() < mid_facts:
+            p = rng.choice(desc["preds"])
+            lo, hi = rand_bounds(rng, 0.5, 0.0)
+            ops.append(("fact", p["id"], [rng.randrange(n_consts) for _ in range(p["arity"])], lo, hi))
+            continue
         if r < 0.55 and conn:
             i = rng.choice(conn)
             if rng.random() < 0.5:
@@ -678,7 +731,10 @@ def gen_store_program(rng, malformed_p=0.3):
         if r < 0.25:
             return ("N", rng.choice([Fr(3, 2), Fr(-1, 4), Fr(9, 8), Fr(2)]))
         if r < 0.5:
-            return ("T", rng.choice([[Fr(1, 2)], [], [Fr(0), Fr(1, 2), Fr(1)], [Fr(-1, 8), Fr(1, 2)], [Fr(1, 2), Fr(5, 4)]]))
+            # wrong length; out of range on the outer side, on the inner side (necessarily crossed), on both
+            return ("T", rng.choice([[Fr(1, 2)], [], [Fr(0), Fr(1, 2), Fr(1)], [Fr(-1, 8), Fr(1, 2)], [Fr(1, 2), Fr(5, 4)],
+                                     [Fr(3, 2), Fr(1, 2)], [Fr(1, 2), Fr(-1, 2)], [Fr(5, 4), Fr(1)], [Fr(0), Fr(-1, 8)],
+                                     [Fr(9, 8), Fr(5, 4)], [Fr(-1, 4), Fr(-1, 8)], [Fr(-1, 8), Fr(9, 8)], [Fr(2), Fr(-1)]]))
         return ("O", rng.choice(["str", "int", "none", "list"]))
 
     ops = []
@@ -717,16 +773,28 @@ def gen_store_program(rng, malformed_p=0.3):
         elif r < 0.9:
             i = rng.choice([0, 1, 2, 3, 4, 5])
             ops.append((rng.choice(["get", "state"]), i, rand_g(i)))
-        elif r < 0.93:
+        elif r < 0.92:
             ops.append(("infer", rng.choice([1, 2, 10])))
         else:
             # reset_world on first-order tables AND on the proposition-like (fully quantified) formula, whose stored data
             # must follow the new default too; often followed by reset_bounds, which reads that stored data
-            ops.append(("world", rng.choice([0, 1, 2, 5, 5]), w()))
-            if rng.random() < 0.6:
-                ops.append((rng.choice(["get", "state"]), 5, []))
-                ops.append(("resetb",))
-                ops.append(("get", 5, []))
+            t = rng.choice([0, 1, 2, 3, 5, 5])
+            ops.append(("world", t, w()))
+            if t == 5 or rng.random() < 0.3:
+                if rng.random() < 0.6:
+                    ops.append((rng.choice(["get", "state"]), 5, []))
+                    ops.append(("resetb",))
+                    ops.append(("get", 5, []))
+            else:
+                # the new default must govern everything that is not asserted from now on: a grounding never seen before,
+                # the rows the next inference creates, and what reset_bounds() returns to
+                never = [rng.choice([nc, rng.randrange(nc)]) for _ in range(arity[t])]
+                ops.append(("get", t, never))
+                if rng.random() < 0.7:
+                    ops.append(("infer", rng.choice([1, 2])))
+                    ops.append(("get", t, rand_g(t)))
+                if rng.random() < 0.4:
+                    ops.append(("resetb",))
     return {"kb": desc, "ops": ops}
 
 
@@ -1068,3 +1136,41 @@ def run_fol_losses(case):
         ls = kb.model.loss_fn({L.Loss.SUPERVISED: float(sc)})[0]
         meta["sloss"] = q(Fr(float(ls)))
     return {"lines": lines, "impl": out, "meta": meta}
+
+
+# ------------------------------------------------------------------ C15 known finding D20: data on a partially quantified formula
+
+def run_partial_quant_data(case):
+    """witness of D20. Two scenarios on q = Forall(y, And(P(x,y), Q(y))) with x free:
+    (1) add_data({q: {'a': (1/4, 3/4)}}), reset_bounds(): what does q('a') read?
+    (2) inference creates the group q('a') first, then add_data on it: accepted?"""
+    import impl
+    L = impl.lnn()
+    res = {}
+
+    def mk():
+        m = L.Model()
+        P = L.Predicate("P", 2)
+        Q = L.Predicate("Q")
+        x, y = L.Variables("x", "y")
+        q_ = L.Forall(y, L.And(P(x, y), Q(y)))
+        m.add_knowledge(q_)
+        return m, P, Q, q_
+
+    m, P, Q, qf = mk()
+    m.add_data({qf: {"a": (0.25, 0.75)}})
+    res["after_add"] = [q(Fr(v)) for v in qf.get_data("a").detach().reshape(-1).tolist()]
+    m.reset_bounds()
+    try:
+        res["after_reset"] = [q(Fr(v)) for v in qf.get_data("a").detach().reshape(-1).tolist()]
+    except Exception as e:
+        res["after_reset"] = "EXC:" + type(e).__name__
+    m, P, Q, qf = mk()
+    m.add_data({P: {("a", "1"): L.Fact.TRUE}, Q: {"1": L.Fact.TRUE}})
+    m.upward()
+    try:
+        m.add_data({qf: {"a": (0.25, 0.75)}})
+        res["add_after_inference"] = [q(Fr(v)) for v in qf.get_data("a").detach().reshape(-1).tolist()]
+    except Exception as e:
+        res["add_after_inference"] = "EXC:" + type(e).__name__ + ": " + str(e)[:80]
+    return res
